@@ -199,14 +199,14 @@ def run(chk, replay=None):
             prev = f
         return us
 
-    def poisson_case(wt, unit, exact, label):
+    def poisson_case(wt, unit, exact, label, dtype=None):
         n = len(wt)
         rates = [w_ * unit for w_ in wt]
         cdf = Cdf(rates)
         W = sum(wt)
         us = boundary_draws(cdf, n, exact)
         data = numpy.array(rates, dtype=float).reshape(n, 1)
-        fc = B.forecast(data)
+        fc = B.forecast(data, dtype=dtype)
         # one observed event in the first positive bin so that every simulated catalog holds exactly one event
         first = next(i for i in range(n) if wt[i] > 0)
         w = [[1 if i == first else 0] for i in range(n)]
@@ -222,7 +222,7 @@ def run(chk, replay=None):
             dr = [project_draw(cdf, u, n, not exact, W) for u in draws]
             add_trace(base_trace(kind='poisson', wt=list(wt), target=tgt, n=n, zero=[1 if x == 0 else 0 for x in wt],
                                  draws=dr, result=[int(x) for x in out]),
-                      {'label': label, 'wt': wt, 'unit': unit, 'draws': draws, 'module': name}, exact)
+                      {'label': label + ('' if dtype is None else '-' + dtype), 'wt': wt, 'unit': unit, 'draws': draws, 'module': name}, exact)
             for d in dr:
                 if d['u'] % 4 != 2 or d['near']:
                     chk.nontrivial('%s|%s|%s' % (wt, unit, d['u']))
@@ -242,6 +242,10 @@ def run(chk, replay=None):
             # divides by the total - not when it multiplies by a rounded reciprocal)
             for unit in (0.125, 2.0 ** -20, 64.0, 49.0 / 256.0, 3.0):
                 poisson_case(wt, unit, True, 'dyadic')
+            # the same exact weights held in other dtypes (whole-number rates as integers, small dyadic ones as float32)
+            poisson_case(wt, 64.0, True, 'dyadic', dtype='int64')
+            poisson_case(wt, 3.0, True, 'dyadic', dtype='int32')
+            poisson_case(wt, 0.125, True, 'dyadic', dtype='float32')
         for unit in (0.1, 3e-7, 0.7, 1e3 / 3):
             poisson_case(wt, unit, False, 'decimal')
 
